@@ -28,10 +28,13 @@ constexpr auto fmod_check(T const x, T const y) noexcept -> T
 {
     return ( // NaN check
         any_nan(x, y) ? etl::numeric_limits<T>::quiet_NaN() :
-                      // +/- infinite
-            !all_finite(x, y) ? etl::numeric_limits<T>::quiet_NaN()
-                              :
-                              // else
+                      // +/- infinite dividend
+            !is_finite(x) ? etl::numeric_limits<T>::quiet_NaN()
+                          :
+                          // +/- infinite divisor
+            !is_finite(y) ? x
+                          :
+                          // else
             x - trunc(x / y) * y
     );
 }
